@@ -182,26 +182,27 @@ class PhasePredictor(QTable):
 
     def time_at(self, phase, guess=None):
         """Returns timestamp at given phase via root-finding."""
-        def func(x):
-            return (self(guess + x * u.s) - phase).value
-
-        def fprime(x):
-            return self.f0(guess + x * u.s).to_value(u.cycle / u.s)
-
-        check = ((self(a) < phase) & (phase < self(b)) for a, b in self.intervals)
-        check = functools.reduce(operator.or_, check)
-
-        if not np.all(check):
+        # The phase increases monotonically within every interval in which the
+        # predictor is valid: bracket the root there, so that the iteration
+        # cannot leave the interval (as Newton steps can near its ends).
+        # ``guess`` is only kept for backward compatibility.
+        for a, b in self.intervals:
+            if self(a) <= phase <= self(b):
+                break
+        else:
             raise ValueError("Given phase seems to be outside predictor range!")
 
-        if guess is None:
-            ph_end = (self(self["tmid"] + self["span"] / 2) - phase).value
-            order = np.argsort(ph_end)
-            index = order[np.searchsorted(ph_end, 0, sorter=order)]
-            guess = self["tmid"][index]
+        def func(x):
+            return (self(a + x * u.s) - phase).value
 
-        x = scipy.optimize.root_scalar(func, x0=0, fprime=fprime)
-        return guess + x.root * u.s
+        length = (b - a).to_value(u.s)
+        if func(0.0) >= 0:
+            return a
+        if func(length) <= 0:
+            return b
+
+        x = scipy.optimize.brentq(func, 0.0, length, xtol=1e-12, rtol=1e-15)
+        return a + x * u.s
 
     @classmethod
     def from_polyco(cls, path):
